@@ -180,7 +180,10 @@ where
                 Poll::Pending => (),
             }
 
-            if server.is_some() {
+            if server.is_none() {
+                // No replier bound: there is nothing to wait for on that side
+                server_pending = true;
+            } else {
                 let st = &mut server.as_mut().as_pin_mut().unwrap().1;
 
                 match st.poll_next_unpin(cx) {
@@ -235,6 +238,9 @@ where
                 }
                 // All streams have finished
                 Poll::Ready(None) => {
+                    // No requestor connected: there is nothing to wait for on that side
+                    stream_pending = true;
+
                     // Unwrapping is safe as the underlying sink is guaranteed not to error
                     ready!(sink.as_mut().poll_flush(cx)).unwrap();
 
